@@ -3,6 +3,7 @@ package main
 import (
 	"go/constant"
 	"go/token"
+	"strings"
 
 	"golang.org/x/tools/go/ssa"
 )
@@ -239,6 +240,40 @@ func everyIterationCalls(f *ssa.Function, pred func(c ssa.CallInstruction) bool)
 		}
 	}
 	return true, true, ""
+}
+
+// everyIterationCallsDeep is everyIterationCalls that also looks into the
+// functions of the module f calls (two levels): the loop may have been moved
+// into a helper, which f must then call on every iteration of its own loop
+// (when it calls it from one).
+func everyIterationCallsDeep(f *ssa.Function, pred func(c ssa.CallInstruction) bool, depth int) (found, ok bool, why string) {
+	if found, ok, why = everyIterationCalls(f, pred); found || depth >= 2 {
+		return
+	}
+	for _, b := range f.Blocks {
+		for _, in := range b.Instrs {
+			c, isC := in.(ssa.CallInstruction)
+			if !isC {
+				continue
+			}
+			g := c.Common().StaticCallee()
+			if g == nil || g == f || g.Blocks == nil || !strings.HasPrefix(pkgPathOf(g), modPath) {
+				continue
+			}
+			fnd, ok2, why2 := everyIterationCallsDeep(g, pred, depth+1)
+			if !fnd {
+				continue
+			}
+			if !ok2 {
+				return true, false, why2 + " (in " + funcKey(g) + ")"
+			}
+			if f2, ok3, why3 := everyIterationCalls(f, func(x ssa.CallInstruction) bool { return x == c }); f2 && !ok3 {
+				return true, false, why3 + " (the call of " + funcKey(g) + ")"
+			}
+			return true, true, ""
+		}
+	}
+	return false, false, "no loop contains the call"
 }
 
 // loopOnlyLeavesAtHead: the innermost loop of f containing a call satisfying
